@@ -2,29 +2,41 @@
 // [C01 -> C02/C03/C04] every move produced by get_all_moves satisfies make_move's precondition consistent(board, move).
 // Spec-level proof over the generator specifications (prelude/moves_spec.rs) and the board invariants gen_wf.
 // =====================================================================================
-pub open spec fn pl(b: Board) -> Placement { at(b.bitboards) }
 
-/// an en-passant file means: the enemy pawn that just made the double step stands on it beside our fifth rank, and the
-/// square it skipped is empty
-pub open spec fn ep_inv(b: Board) -> bool {
-    b.en_passant_file matches Some(f) ==> {
-        let c = b.current_turn;
-        &&& f < 8
-        &&& pl(b)(sq(ep_rank(c), f as int)) == Some(Kind::Pawn(opp(c)))
-        &&& pl(b)(sq(ep_rank(c) + fwd(c), f as int)).is_none()
+/// the side that has just moved did not leave its own king attacked (every position reached by a legal move)
+pub open spec fn nocheck_inv(b: Board) -> bool { !in_check_bb(b, opp(b.current_turn)) }
+pub open spec fn gen_wf(b: Board) -> bool {
+    pb_wf(b.bitboards) && b.history@.len() >= 1 && pawns_ok(b) && ep_inv(b) && home_inv(b) && nocheck_inv(b)
+}
+
+/// a square attacked by a piece of the side to move does not hold the enemy king (else that king would be in check with
+/// the other side to move)
+pub proof fn lemma_no_king_capture(b: Board, s: Square, k: Kind, d: Square)
+    requires gen_wf(b), sq_ok(s), sq_ok(d), pl(b)(s) == Some(k), color_of(k) == b.current_turn,
+             bit(att(k, s, b.bitboards.all_pieces.0), sq_idx(d)),
+    ensures pl(b)(d) != Some(Kind::King(opp(b.current_turn))),
+{
+    broadcast use lemma_bit_and, lemma_bit_zero;
+    let c = opp(b.current_turn);
+    if pl(b)(d) == Some(Kind::King(c)) {
+        let j = sq_idx(s); let t = sq_idx(d);
+        lemma_sq_of_idx(s); lemma_sq_of_idx(d);
+        lemma_occupancy(b.bitboards, j);
+        lemma_attacked_pointwise(b, c, 64, t);
+        assert(bit(enemy_bb(b, c), j));
+        assert(at(b.bitboards)(sq_of(j)).is_some());
+        assert(bit(attacked(b, c), t));
+        // the king's own bit: at(d) == King(c) means bit t of the king board (first matching board in `at`, boards disjoint)
+        lemma_king_bit(b.bitboards, d, c);
+        assert(bit(king_bb(b, c), t));
+        assert(bit(king_bb(b, c) & attacked(b, c), t));
+        assert(false);
     }
 }
-/// a castling right that is still there means king and that rook stand on their home squares
-pub open spec fn home_inv(b: Board) -> bool {
-    &&& (right_of(b, CastlingKind::WhiteKingside) == CastlingStatus::Available ==> pl(b)(sq(0, 4)) == Some(Kind::King(Color::White)) && pl(b)(sq(0, 7)) == Some(Kind::Rook(Color::White)))
-    &&& (right_of(b, CastlingKind::WhiteQueenside) == CastlingStatus::Available ==> pl(b)(sq(0, 4)) == Some(Kind::King(Color::White)) && pl(b)(sq(0, 0)) == Some(Kind::Rook(Color::White)))
-    &&& (right_of(b, CastlingKind::BlackKingside) == CastlingStatus::Available ==> pl(b)(sq(7, 4)) == Some(Kind::King(Color::Black)) && pl(b)(sq(7, 7)) == Some(Kind::Rook(Color::Black)))
-    &&& (right_of(b, CastlingKind::BlackQueenside) == CastlingStatus::Available ==> pl(b)(sq(7, 4)) == Some(Kind::King(Color::Black)) && pl(b)(sq(7, 0)) == Some(Kind::Rook(Color::Black)))
-}
-/// what the generators may rely on (part of the representation invariant of reachable positions)
-pub open spec fn gen_wf(b: Board) -> bool {
-    pb_wf(b.bitboards) && b.history@.len() >= 1 && pawns_ok(b) && ep_inv(b) && home_inv(b)
-}
+pub proof fn lemma_king_bit(pb: PieceBitboards, d: Square, c: Color)
+    requires pb_wf(pb), sq_ok(d), at(pb)(d) == Some(Kind::King(c)),
+    ensures bit(match c { Color::White => pb.white_king.0, Color::Black => pb.black_king.0 }, sq_idx(d)),
+{}
 
 // ---- occupancy words vs. placement
 pub proof fn lemma_occupancy(pb: PieceBitboards, i: int)
@@ -87,23 +99,39 @@ pub proof fn lemma_explode_all_elem(l: Seq<Ply>, c: Color, n: int, t: int)
 // ---- per kind of move
 /// a non-pawn, non-castling move to a square of the piece's attack set that is not occupied by its own side
 pub proof fn lemma_step_consistent(b: Board, s: Square, k: Kind, t: int)
-    requires gen_wf(b), sq_ok(s), pl(b)(s) == Some(k), color_of(k) == b.current_turn,
+    requires gen_wf(b), sq_ok(s), pl(b)(s) == Some(k), color_of(k) == b.current_turn, !is_pawn_kind(k),
              0 <= t < step_moves(b, s, k).len(), on_board_move(step_moves(b, s, k)[t]),
     ensures consistent(b, fill(b, step_moves(b, s, k)[t])),
 {
+    broadcast use lemma_bit_and, lemma_bit_not;
     let x = att(k, s, b.bitboards.all_pieces.0) & !own_bb(b, color_of(k));
     lemma_sq_list_members(x, 64);
     let d = sq_list(x, 64)[t];
     assert(step_moves(b, s, k)[t] == ply_new(s, d, k));
+    // the destination is attacked by the piece and not occupied by its own side; it cannot hold a king
+    let i = sq_idx(d);
+    lemma_sq_of_idx(d);
+    assert(bit(x, i));
+    assert(bit(att(k, s, b.bitboards.all_pieces.0), i) && !bit(own_bb(b, color_of(k)), i));
+    lemma_occupancy(b.bitboards, i);
+    lemma_no_king_capture(b, s, k, d);
 }
 pub proof fn lemma_capture_consistent(b: Board, s: Square, c: Color, t: int)
     requires gen_wf(b), sq_ok(s), pl(b)(s) == Some(Kind::Pawn(c)), c == b.current_turn,
              0 <= t < pawn_captures(b, s, c).len(), on_board_move(pawn_captures(b, s, c)[t]),
-    ensures consistent(b, fill(b, pawn_captures(b, s, c)[t])),
+    ensures consistent_core(b, fill(b, pawn_captures(b, s, c)[t])),
 {
+    broadcast use lemma_bit_and;
     let x = pawn_att(s, c) & enemy_bb(b, c);
     lemma_sq_list_members(x, 64);
-    assert(pawn_captures(b, s, c)[t] == ply_new(s, sq_list(x, 64)[t], Kind::Pawn(c)));
+    let d = sq_list(x, 64)[t];
+    assert(pawn_captures(b, s, c)[t] == ply_new(s, d, Kind::Pawn(c)));
+    let i = sq_idx(d);
+    lemma_sq_of_idx(d);
+    assert(bit(x, i));
+    assert(bit(pawn_att(s, c), i) && bit(enemy_bb(b, c), i));
+    lemma_occupancy(b.bitboards, i);
+    lemma_no_king_capture(b, s, Kind::Pawn(c), d);
 }
 pub proof fn lemma_empty_at(b: Board, r: int, f: int)
     requires pb_wf(b.bitboards), 0 <= r < 8, 0 <= f < 8,
@@ -121,7 +149,7 @@ pub proof fn lemma_add_delta(s: Square, dr: int, df: int)
 {}
 
 pub open spec fn raw_facts(b: Board, s: Square, c: Color, q: Ply) -> bool {
-    &&& consistent(b, fill(b, q))
+    &&& consistent_core(b, fill(b, q))
     &&& q.promoted_to.is_none() && !q.is_castles && q.piece == Kind::Pawn(c) && q.start == s
     &&& (q.dest.rank == last_rank(c) ==> !q.en_passant && !q.is_double_pawn_push)
 }
